@@ -46,3 +46,47 @@ from bounded import c08_corpus as _b8
 bounded_check(name="c08-corpus", props=["C08"], fn=_b8.run_case, domain=_b8.domain, exhaustive=True,
               label="B3: fixed corpus = every module of rope (working tree) and ropetest, 40 (thorough 120) stdlib modules, 46 one-construct snippets: annotation succeeds, "
                     "write_ast == source, regions nested, region text == written node, expression regions cover the interpreter's span and re-parse to the same node")
+
+# ---- CPython cross-check of the contract text above: the proved clauses evaluated natively on the real _Source (guards the encoding) ----
+def _xc_texts():
+    import itertools
+    out = []
+    for n in range(0, 6):
+        for t in itertools.product("a#\n ", repeat=n):
+            out.append("".join(t))
+    return out
+
+
+def _xc_domain(tier, seed):
+    texts = _xc_texts()
+    if tier != "thorough":
+        texts = [t for i, t in enumerate(texts) if len(t) <= 4 or i % 5 == 0]
+    for src in texts:
+        for off in range(0, len(src) + 1):
+            for token in ("a", "aa", "#", "a ", "\n"):
+                for skip in (True, False):
+                    yield (src, off, token, skip)
+
+
+def _xc_build_consume(case):
+    from rope.refactor import patchedast
+    src, off, token, skip = case
+    o = patchedast._Source(src)
+    o.offset = off
+    return {"self": o, "token": token, "skip_comment": skip}
+
+
+def _xc_build_good(case):
+    from rope.refactor import patchedast
+    src, off, token, skip = case
+    o = patchedast._Source(src)
+    o.offset = min(off, len(src))
+    # (token position `offset`: every position at or after the cursor; start: None or a position before it)
+    return {"self": o, "token": token, "offset": len(src) if skip else off, "start": None}
+
+
+bounded_check(name="c08-consume-native", props=["C08"], contract="_Source.consume", build=_xc_build_consume, domain=_xc_domain, exhaustive=True,
+              label="CPython cross-check: _Source.consume's contract evaluated on the real object for every text of <= 4 (thorough 5) characters over {a,#,newline,space} "
+                    "(and every 5th of length 5) x cursor x 5 tokens x skip_comment")
+bounded_check(name="c08-good-token-native", props=["C08"], contract="_Source._good_token", build=_xc_build_good, domain=_xc_domain, exhaustive=True,
+              label="CPython cross-check: _good_token's two-sided comment specification on the same domain")
